@@ -83,6 +83,13 @@ CHECKS = {
         design_ref="3/C05",
         note="Trusts TLC and scripted callable aliases; under CMD_RAISE a chain operand defers to the chain (documented intent of the code). Two families of defects are known findings (value truthiness of $()/$[] operands; CMD_RAISE depends on the parse path).",
     ),
+    "C07": dict(
+        category="model_checking",
+        technique="TLA+ spec Redirect (routing decision: operator classes x stage kind x pipeline position x capture form -> destination of each stream, conflicts as errors) checked by TLC; every documented spelling of every operator and operator pairs rendered to real command lines whose streams write distinct tags; destinations read back and validated against RedirectTrace by TLC",
+        text="TLC checks OneDestination, Out/ErrFollowsOperator, MergeMeansSame, ConflictsAreErrors, DefaultOut and NoCrash over all configurations with up to two operators; all 50 operator spellings are executed alone on an external process, a threaded alias and an unthreadable alias, with and without a following pipe, under $() and ![], plus operator pairs; every destination (files with pre-existing content, next stage, capture, fd 1, fd 2) is inspected and must be the spec's route.",
+        design_ref="3/C07",
+        note="Trusts TLC and tag-based destination detection; pipelines of length <= 2; three alias/capture mis-routes are known findings.",
+    ),
 }
 
 ALL = [f"C{i:02d}" for i in range(1, 21)]
